@@ -42,7 +42,11 @@ DIRECTED_THOROUGH = {
 }
 
 
-def check(rep, pid):
+# sessions with one transient inotify_add_watch failure after start-up (C07: monitoring never dies)
+FAULT = {"C07": [(1, True, True, False, "str", False)]}
+
+
+def check(rep, pid, extra=()):
     quick = rep.tier == "quick"
     q, t = SESSIONS[pid]
     cfgs = list(q) + ([] if quick else list(t))
@@ -60,6 +64,13 @@ def check(rep, pid):
                           module="vf.props.fsfam", harness="h_history",
                           args=((pid,), nops, rec, settled, opr, sp, full), setup="setup", native_ctx="native_ctx",
                           jobs=3, query_timeout_s=900 if quick else 3000, loop_bound=200, int_union_limit=100000))
+    for (nops, rec, settled, opr, spl, full) in FAULT.get(pid, []):
+        specs.append(dict(name=f"{pid}: {nops} op(s) with one transient add_watch failure (ENOENT/ENOTDIR/EACCES at the 1st "
+                               f"or 2nd call after start), recursive={rec}, root as {spl}",
+                          module="vf.props.fsfam", harness="h_history",
+                          args=((pid,), nops, rec, settled, opr, spl, full, None, True), setup="setup", native_ctx="native_ctx",
+                          jobs=3, query_timeout_s=900 if quick else 3000, loop_bound=200, int_union_limit=100000))
+    specs.extend(extra)
     for sp in specs:
         sp["property"] = pid
     res = run_sessions(specs, workers=min(len(specs), 5))
